@@ -9,7 +9,7 @@ import core
 from props import answers
 from props.c18 import lean_order_worlds
 
-THEOREMS = ["InfOCF.C17_front_loop_exact", "InfOCF.C17_front_loop_total", "InfOCF.paretoLoop_inv", "InfOCF.C17_pareto_box", "InfOCF.C17_rank_is_cost", "InfOCF.C17_front_sound_complete", "InfOCF.C17_cinf_accepted",
+THEOREMS = ["InfOCF.C17_front_loop_exact", "InfOCF.C17_front_loop_total", "InfOCF.paretoLoop_inv", "InfOCF.C17_pareto_box", "InfOCF.C17_rank_is_cost", "InfOCF.C17_front_sound_complete", "InfOCF.C17_front_cert_sound", "InfOCF.C17_front_cert_vectors", "InfOCF.linRefute_sound", "InfOCF.C17_cinf_accepted",
             "InfOCF.isCRepB_iff", "InfOCF.mem_boxVectors", "InfOCF.C05_base_iff", "InfOCF.C18_accept_iff"]
 RULE = ("random strongly consistent bases (1-4 atoms, 1-5 conditionals; unfalsifiable conditionals, single-conditional bases, ties): "
         "PreOCF.init_random_min_c_rep must construct; its impacts are checked by the driver (non-negative, c-representation, Pareto-minimal "
@@ -131,6 +131,21 @@ def compare(case, impl, resp):
                 fail("a world's rank is not the sum of the impacts of the conditionals it falsifies", impl["ranks"], want_ranks)
             if isrep != "1" or not all(impl["base_accept"]):
                 fail("the ranking does not accept every conditional of the base", {"impacts": eta, "accept": impl["base_accept"]}, True)
+            elif pareto == "?":
+                # the box below the vector is too large for the exact test (never the case for a minimal vector of these bases):
+                # probe single-coordinate reductions, each CHECKED by the driver; a certified smaller c-representation is a violation
+                D = core.conds_line(answers.keyed(case["base"]))
+                probes = []
+                for i, x in enumerate(eta):
+                    for y in {x - 1, x // 2, 0}:
+                        if 0 <= y < x:
+                            probes.append(eta[:i] + [y] + eta[i + 1:])
+                rs = core.driver_batch([f"crep {n} {D} 0 " + " ".join(str(v) for v in pr) for pr in probes])
+                hit = [pr for pr, r in zip(probes, rs) if r.split("|")[0] == "1"]
+                if hit:
+                    fail("the impact vector is not Pareto-minimal", eta, {"a smaller c-representation": hit[0]})
+                else:
+                    impl["pareto_inconclusive"] = True
             elif pareto != "1":
                 fail("the impact vector is not Pareto-minimal", eta, "a smaller c-representation exists")
             W = core.all_worlds(n)
@@ -188,6 +203,15 @@ def compare(case, impl, resp):
             front = [[v[pos[k]] for k in keys] for v in impl["front"][1] if len(v) == len(keys)]
             if all(any(wit[i] < v[i] for i in range(len(keys))) for v in front):
                 fail("Pareto front misses a Pareto-minimal c-representation", front, {"c-representation below no returned vector": wit})
+    # the LP search found a solution of the compiled system lying below no returned vector: driver-certified => a vector is missing
+    if case.get("front") and resp.get("fcert_cm") and impl.get("front", ("",))[0] == "ok":
+        if resp["fcert_cm"].split("|")[0] == "1":
+            keys = [k for k, _, _ in case["base"]]
+            pos = {k: i for i, k in enumerate(sorted(keys))}
+            wit = resp["fcert_eta"]
+            front = [[v[pos[k]] for k in keys] for v in impl["front"][1] if len(v) == len(keys)]
+            if all(any(wit[i] < v[i] for i in range(len(keys))) for v in front):
+                fail("Pareto front misses a Pareto-minimal c-representation", front, {"c-representation below no returned vector": wit})
     seen, out = set(), []
     for f in fails:
         if f["signature"] not in seen:
@@ -218,6 +242,8 @@ def driver_eval(cases, impls):
             B = min(B, 6 if len(c["base"]) <= 4 else (4 if len(c["base"]) <= 7 else 2))
             lines.append(f"cfront {c['n']} {B} {D}")
             idx.append((i, "front", B))
+            lines.append(f"ctab {c['n']} {D} 0")
+            idx.append((i, "ctab"))
             wit = impl.get("front_witness")
             if wit:
                 lines.append(f"crep {c['n']} {D} 0 " + " ".join(str(x) for x in wit))
@@ -228,6 +254,36 @@ def driver_eval(cases, impls):
         out[t[0]][t[1]] = r
         if t[1] == "front":
             out[t[0]]["front_B"] = t[2]
+    # completeness certificates for the returned fronts (multipliers from z3 as an LP search, check by the driver: fcert)
+    from props import ccert
+
+    lines2, idx2 = [], []
+    for i, (c, impl) in enumerate(zip(cases, impls)):
+        fr = impl.get("front")
+        keys = [k for k, _, _ in c["base"]]
+        if not (c.get("front") and fr and fr[0] == "ok" and fr[1] and "ctab" in out[i] and all(len(v) == len(keys) for v in fr[1])):
+            continue
+        pos = {k: j for j, k in enumerate(sorted(keys))}
+        front = sorted({tuple(int(v[pos[k]]) for k in keys) for v in fr[1]})
+        if any(x < 0 for v in front for x in v):
+            continue
+        D = core.conds_line(answers.keyed(c["base"]))
+        try:
+            rows, _ = ccert.parse_ctab(out[i]["ctab"])
+            cert = ccert.build_front_cert(len(keys), rows, [list(v) for v in front], cap=1500 if len(keys) <= 6 else 400)
+        except Exception as e:  # noqa: BLE001
+            cert = {"status": "unknown", "choices": 0, "err": f"{type(e).__name__}: {e}"[:100]}
+        out[i]["fcert_status"] = cert["status"]
+        out[i]["fcert_choices"] = cert.get("choices", 0)
+        if cert["status"] == "ok":
+            lines2.append(f"fcert {c['n']} {D} {ccert.front_text(front)} {ccert.pool_text(cert['pool'])}")
+            idx2.append((i, "fcert"))
+        elif cert["status"] == "counter":
+            out[i]["fcert_eta"] = cert["eta"]
+            lines2.append(f"crep {c['n']} {D} 0 " + " ".join(str(x) for x in cert["eta"]))
+            idx2.append((i, "fcert_cm"))
+    for t, r in zip(idx2, core.driver_batch(lines2)):
+        out[t[0]][t[1]] = r
     return out
 
 
@@ -281,6 +337,12 @@ def run(ctx):
                 ctx.bump("front_watchdog_timeouts(large base: inconclusive)" if len(c["base"]) >= 8 else "front_watchdog_timeouts")
             if impl.get("front", ("", None))[0] == "ok":
                 ctx.bump(f"front_size={min(len(impl['front'][1]), 4)}")
+                st = resp.get("fcert_status")
+                if st == "ok":
+                    ctx.bump("front_completeness_certified" if resp.get("fcert") == "1" else "front_certificate_rejected_by_driver")
+                    ctx.bump("front_certificate_choice_combinations", resp.get("fcert_choices", 0))
+                elif st:
+                    ctx.bump("front_completeness_uncertified:" + st)
         eta = impl.get("impacts") or []
         if len(c["base"]) >= 2 and any(eta):
             ctx.nontrivial.add(hash(json.dumps(c["base"])))
